@@ -160,9 +160,15 @@ type ccState struct {
 	gatesOpenSeq int
 
 	closeCalls []closeRec
+	delivered  []deliveryRec // datagrams put into the client's socket (in order)
 	readErrSeq int
 	logs       []string
 	newErr     error
+}
+
+type deliveryRec struct {
+	t   time.Duration
+	tag string
 }
 
 type closeRec struct {
@@ -331,6 +337,26 @@ func (st *ccState) doCall(ci int, sp callSpec, attempt int, nth int) *ccCall {
 	var match func(m interface{}) bool
 	if sp.mk != mkNil {
 		match = func(m interface{}) bool { return st.matcher(c, m) }
+	}
+	if cfg := st.cfg; cfg.tries >= 0 && !cfg.stall && !st.gatedRun() {
+		// A call whose retry schedule is finite must be back when it ends. Without this
+		// watchdog a call that retransmits for ever keeps the clock moving and the run
+		// would end in the (inconclusive) virtual-time budget instead of a verdict.
+		slack := time.Millisecond
+		if cfg.slowWrite {
+			slack += time.Duration(cfg.tries+1) * 4 * cfg.T
+		}
+		limit := st.bound(c) + slack
+		st.net.After(limit, func() {
+			if c.returned {
+				return
+			}
+			rule := "T1-bound"
+			if cfg.mode == modeRetry {
+				rule = "S-total"
+			}
+			s.Abort(rule, "call %d (T=%v tries=%d) has still not returned %v after it was invoked: its retry schedule ends at +%v", c.id, cfg.T, cfg.tries, limit, st.bound(c))
+		})
 	}
 	task := s.CurTask()
 	st.cur[task] = c
@@ -512,9 +538,28 @@ func (st *ccState) sendReply(reqWire []byte, kind replyKind, delay time.Duration
 		s.Fault("duplicate")
 		st.net.After(d2, func() {
 			s.Stimulus()
-			st.conn.Deliver(dgram{b: b, from: from, serial: int(serial), tag: tag + "+dup"})
+			st.deliver(dgram{b: b, from: from, serial: int(serial), tag: tag + "+dup"})
 		})
 	}
+}
+
+// deliver puts a datagram into the client's socket and remembers that it did.
+func (st *ccState) deliver(d dgram) {
+	if !st.conn.Closed() {
+		st.delivered = append(st.delivered, deliveryRec{t: st.s.Now(), tag: d.tag})
+	}
+	st.conn.Deliver(d)
+}
+
+func (st *ccState) gatedRun() bool {
+	for _, specs := range st.cfg.callers {
+		for _, sp := range specs {
+			if sp.mk == mkGated {
+				return true
+			}
+		}
+	}
+	return false
 }
 
 func (st *ccState) background() {
